@@ -221,12 +221,17 @@ Qed.
 Print Assumptions c12_composed_total_partial.
 
 (* ------------------------------------------------------------------ sites added since the last baseline *)
-(* Model/SitesBaseline.v was re-recorded on /repo 2a611aa; every row that grew was read, and the added site is
+(* Model/SitesBaseline.v was re-recorded on /repo d7151cc; every row that grew was read, and the added site is
    restated with its guard in Model/ReviewedSites.v (text pinned by c12_modelled_text_unchanged). *)
 Theorem c12_reviewed_names_relative : forall (A : Type) (found : ident A -> bool) module_path i,
   resolve_relative found module_path i <> Panic.
 Proof. exact @resolve_relative_total_lemma. Qed.
 Print Assumptions c12_reviewed_names_relative.
+
+Theorem c12_reviewed_names_core_relative : forall (A : Type) (ok : ident A -> bool) module_path i,
+  resolve_core_relative ok module_path i <> Panic.
+Proof. exact @resolve_core_relative_total_lemma. Qed.
+Print Assumptions c12_reviewed_names_core_relative.
 
 Theorem c12_reviewed_only_equals : forall (A : Type) (args : list A), two_args args <> Panic.
 Proof. exact @two_args_total_lemma. Qed.
@@ -278,6 +283,11 @@ Local Close Scope Z_scope.
 (* the hypotheses of the reviewed-site theorems are what enumerate() provides *)
 Example c12_ex_rest_behind : rest_behind [1; 2; 3] 2 = Ret [] /\ rest_behind [1; 2; 3] 3 = Panic.
 Proof. split; vm_compute; reflexivity. Qed.
+(* module path m.n, name x: tried as m.n.x, then m.x (7f02b48: the INNERMOST module is dropped) *)
 Example c12_ex_names_relative :
-  resolve_relative (fun i => Nat.eqb (length (path i)) 1) [7; 8] (Ident [] 9) = Ret (Some (Ident [8] 9)).
+  resolve_relative (fun i => Nat.eqb (length (path i)) 1) [7; 8] (Ident [] 9) = Ret (Some (Ident [7] 9)).
 Proof. vm_compute. reflexivity. Qed.
+Example c12_ex_names_core_relative :
+  resolve_core_relative (fun i => Nat.eqb (length (path i)) 0) [7; 8] (Ident [] 9) = Ret (Ident [] 9, true) /\
+  resolve_core_relative (fun _ => false) [7; 8] (Ident [] 9) = Ret (Ident [] 9, false).
+Proof. split; vm_compute; reflexivity. Qed.
